@@ -1,4 +1,5 @@
 import Chewing.Proofs.EditorLinkSyl
+import Chewing.Proofs.EditorRevalidate
 /-!
 Stage B of C14 over whole histories, part 2.
 
@@ -226,6 +227,16 @@ theorem jump_shared {e e' : Editor D L} {w : Nat} {okk : Bool} (h : e.jump env w
     | (injection h with h; injection h with h1 h2; subst h1; rfl)
     | cases h
 
+/-- `Editor::revalidate_selecting` (F32 repair, the last step of the option / layout / dictionary calls): at
+    most the saved cursor is restored — no new syllable symbol, the layout state is kept -/
+theorem revalidate_nn_syl {e e' : Editor D L} (h : e.revalidate env = .ok e') :
+    NoNewSyl e.shared.com e'.shared.com ∧ e'.shared.syl = e.shared.syl := by
+  obtain ⟨h1, h2⟩ := revalidate_fields env h
+  refine ⟨?_, by rw [h1]⟩
+  rcases h2 with h2 | h2 <;> rw [h2]
+  · exact .refl _
+  · exact .popCursor _
+
 /-- every public operation other than a key: no new syllable symbol; the layout state is kept, cleared, or
     (`set_syllable_editor`) the installed one -/
 theorem api_nn_syl {e e' : Editor D L} (op : Op L) (hk : ∀ ev, op ≠ .key ev) (h : e.apply env op = .ok e') :
@@ -257,27 +268,41 @@ theorem api_nn_syl {e e' : Editor D L} (op : Op L) (hk : ∀ ev, op ≠ .key ev)
       ((Editor.leaveIfEmpty env _).shared.syl = _ ∨ (Editor.leaveIfEmpty env _).shared.syl = _ ∨ _)
     rw [leaveIfEmpty_shared]; exact ⟨.refl _, Or.inr (Or.inl rfl)⟩
   | setOptions o =>
-    injection h with h; subst h
-    show NoNewSyl e.shared.com (Editor.leaveIfEmpty env _).shared.com ∧
-      ((Editor.leaveIfEmpty env _).shared.syl = _ ∨ (Editor.leaveIfEmpty env _).shared.syl = _ ∨ _)
-    rw [leaveIfEmpty_shared]
-    dsimp only
-    split
-    · exact ⟨.refl _, Or.inr (Or.inl rfl)⟩
-    · exact ⟨.refl _, Or.inl rfl⟩
+    obtain ⟨hn, hs⟩ := revalidate_nn_syl env (e := e.setOptions env o) h
+    have key : NoNewSyl e.shared.com (e.setOptions env o).shared.com ∧
+        ((e.setOptions env o).shared.syl = e.shared.syl ∨ (e.setOptions env o).shared.syl = env.clearSyl e.shared.syl) := by
+      show NoNewSyl e.shared.com (Editor.leaveIfEmpty env _).shared.com ∧
+        ((Editor.leaveIfEmpty env _).shared.syl = _ ∨ (Editor.leaveIfEmpty env _).shared.syl = _)
+      rw [leaveIfEmpty_shared]
+      dsimp only
+      split
+      · exact ⟨.refl _, Or.inr rfl⟩
+      · exact ⟨.refl _, Or.inl rfl⟩
+    rw [hs]
+    exact ⟨key.1.trans hn, key.2.elim Or.inl (fun x => Or.inr (Or.inl x))⟩
   | setLayout l =>
-    injection h with h; subst h
-    show NoNewSyl e.shared.com (Editor.leaveIfEmpty env _).shared.com ∧
-      ((Editor.leaveIfEmpty env _).shared.syl = _ ∨ (Editor.leaveIfEmpty env _).shared.syl = _ ∨
-        Op.setLayout l = Op.setLayout (Editor.leaveIfEmpty env _).shared.syl)
-    rw [leaveIfEmpty_shared]; exact ⟨.refl _, Or.inr (Or.inr rfl)⟩
+    obtain ⟨hn, hs⟩ := revalidate_nn_syl env (e := e.setLayout env l) h
+    have key : NoNewSyl e.shared.com (e.setLayout env l).shared.com ∧ (e.setLayout env l).shared.syl = l := by
+      show NoNewSyl e.shared.com (Editor.leaveIfEmpty env _).shared.com ∧ (Editor.leaveIfEmpty env _).shared.syl = _
+      rw [leaveIfEmpty_shared]; exact ⟨.refl _, rfl⟩
+    rw [hs, key.2]
+    exact ⟨key.1.trans hn, Or.inr (Or.inr rfl)⟩
   | setEngine k => injection h with h; subst h; exact ⟨.refl _, Or.inl rfl⟩
   | learn k p =>
-    obtain ⟨⟨sh, b⟩, hr, hx⟩ := map_ok h; subst hx
-    refine ⟨?_, Or.inl ((learnPhrase_syl env e.shared k p).elim hr)⟩
-    show NoNewSyl e.shared.com sh.com
-    rw [(learnPhrase_com env e.shared k p).elim hr]; exact .refl _
-  | unlearn k p => injection h with h; subst h; exact ⟨.refl _, Or.inl rfl⟩
+    simp only [Editor.apply] at h
+    split at h
+    · rename_i sh b hr
+      obtain ⟨hn, hs⟩ := revalidate_nn_syl env h
+      rw [hs]
+      refine ⟨NoNewSyl.trans ?_ hn, Or.inl ((learnPhrase_syl env e.shared k p).elim hr)⟩
+      show NoNewSyl e.shared.com sh.com
+      rw [(learnPhrase_com env e.shared k p).elim hr]; exact .refl _
+    · cases h
+    · cases h
+  | unlearn k p =>
+    obtain ⟨hn, hs⟩ := revalidate_nn_syl env (e := { e with shared := Shared.unlearnPhrase env e.shared k p }) h
+    rw [hs]
+    exact ⟨hn, Or.inl rfl⟩
   | jump w =>
     obtain ⟨⟨e1, b⟩, hr, hx⟩ := map_ok h; subst hx
     show NoNewSyl e.shared.com e1.shared.com ∧ (e1.shared.syl = _ ∨ _)
